@@ -366,12 +366,12 @@ def plan(tier, seed):
     step = 1 << 12
     for lo in range(0, 1 << 19, step):
         shards.append({'kind': 'fn', 'uppers': range(lo, lo + step), 'lows': CRIT_LOW})
-    cls = sorted(set([0, 1, 0x3ffff, 0x40000, 0x7fffe, 0x7ffff] + [rng.getrandbits(19) for _ in range(4090)]))
+    cls = sorted(set([0, 1, 0x3ffff, 0x40000, 0x7fffe, 0x7ffff] + [rng.getrandbits(19) for _ in range(32760)]))
     for i in range(0, len(cls), 64):
         shards.append({'kind': 'fn', 'uppers': cls[i:i + 64], 'lows': all_low})
-    for i in range(64):
+    for i in range(1024):
         shards.append({'kind': 'prog', 'idx': i, 'count': 40, 'nvals': 40, 'seed': seed})
-    return {'shards': shards, 'budget_s': 900}
+    return {'shards': shards, 'budget_s': 2400}
 
 
 def gates(acc, tier):
